@@ -6,4 +6,5 @@ let () =
   | _ :: "cmp" :: _ -> Cmpmain.run ()
   | _ :: "run" :: _ -> Runmain.run ()
   | _ :: "den" :: _ -> Runmain.run ~spec:true ()
+  | _ :: "scope" :: _ -> Runmain.run ~scope:true ()
   | _ -> prerr_endline "usage: zwmodel int [--spec] | cov"; exit 2
